@@ -233,11 +233,13 @@ def check_accept_bound(repo, chk):
 
             class T(Translator):
                 def compare(self, op, a, b):
-                    if isinstance(op, (ast.Lt, ast.Gt)) and getattr(a, "has", None) and sp.sympify(a).has(sp.Symbol("rnd", positive=True)):
-                        captured["cut"] = (type(op).__name__, sp.sympify(a), sp.sympify(b))
+                    if isinstance(op, (ast.Lt, ast.Gt, ast.LtE, ast.GtE)) and getattr(a, "has", None) and sp.sympify(a).has(sp.Symbol("rnd", positive=True)):
+                        captured["cut"] = ({"Lt": "Lt", "Gt": "Gt", "LtE": "Lt", "GtE": "Gt"}[type(op).__name__], sp.sympify(a), sp.sympify(b))
+                        captured["strict"] = isinstance(op, (ast.Lt, ast.Gt))
                         return sp.Symbol("CUT")
-                    if isinstance(op, (ast.Lt, ast.Gt)) and getattr(b, "has", None) and sp.sympify(b).has(sp.Symbol("rnd", positive=True)):
-                        captured["cut"] = ("Gt" if isinstance(op, ast.Lt) else "Lt", sp.sympify(b), sp.sympify(a))
+                    if isinstance(op, (ast.Lt, ast.Gt, ast.LtE, ast.GtE)) and getattr(b, "has", None) and sp.sympify(b).has(sp.Symbol("rnd", positive=True)):
+                        captured["cut"] = ("Gt" if isinstance(op, (ast.Lt, ast.LtE)) else "Lt", sp.sympify(b), sp.sympify(a))
+                        captured["strict"] = isinstance(op, (ast.Lt, ast.Gt))
                         return sp.Symbol("CUT")
                     return Translator.compare(self, op, a, b)
 
@@ -257,6 +259,8 @@ def check_accept_bound(repo, chk):
             if ret_bound is None:
                 raise AnalysisError("single_sampling2 no longer returns (data, bound)")
             # all quantities positive: accept iff lhs < rhs  <=>  lhs/rhs < 1 ; required: lhs/rhs == rnd * bound / weight
+            if not captured.get("strict", True):
+                chk.violation("A-bound", fn.key, "non-strict:%s" % label, "the accept test is not strict (`rnd * bound <= weight`): an event of weight 0 is accepted whenever rnd * bound is 0 - in a first batch whose weights all vanish the bound is 0 and every zero-density candidate is returned", file=GEN, line=fn.lineno)
             ok_w = kind == "Lt" and equal(lhs / rhs, sp.Symbol("rnd", positive=True) * ret_bound / want_w)[0] is True
             ok_max = equal(seen["max_arg"][-1], want_w)[0] is True
             ok_lhs = ok_w
